@@ -78,6 +78,8 @@ package placement
 //@   ensures [rule] result != nil && result.Rule == rule
 //@   ensures [peers] len(result.Peers) == len(peers) && (forall j :: 0 <= j && j < len(peers) ==> result.Peers[j] == peers[j].Peer)
 //@   ensures [mismatch-count] len(result.PeersWithDifferentRole) <= len(peers)
+//@   ensures [isolation-score-of-exactly-these-peers] result.IsolationScore == callres("isolationScore", 1)
+//@   at isolationScore 1 assert [scored-over-the-selection-and-the-rule-s-labels] arg0 == peers && arg1 == rule.LocationLabels
 //@   ensures [no-mismatch-iff-all-strict] len(result.PeersWithDifferentRole) == 0 <==> (forall j :: 0 <= j && j < len(peers) ==> strictMatch(peers[j], rule.Role))
 //@   loop 1 invariant result_rf_ok(rf, peers, rule, rangeindex)
 //@ pure result_rf_ok(rf *RuleFit, peers []*fitPeer, rule *Rule, k int) = rf != nil && rf.Rule == rule && len(rf.Peers) == k + 1 && (forall j :: 0 <= j && j <= k ==> rf.Peers[j] == peers[j].Peer) && 0 <= len(rf.PeersWithDifferentRole) && len(rf.PeersWithDifferentRole) <= k + 1 && (len(rf.PeersWithDifferentRole) == 0 <==> (forall j :: 0 <= j && j <= k ==> strictMatch(peers[j], rule.Role)))
